@@ -251,7 +251,7 @@ impl Prop for P {
         }
     }
     fn cases(tier: Tier) -> u64 {
-        tier.pick(8000, 150_000)
+        tier.pick(60_000, 600_000)
     }
     fn fixed_cases(tier: Tier) -> Vec<Case> {
         let n = roots().len() as u16;
